@@ -370,6 +370,9 @@ advance(struct detached_bitstream bs)
 
     Trace(("Advanced over miss-recognized bit pattern at {%u}",
            nbsx2(rb->base)));
+#ifdef KJN_LBZIP2_VERIF
+    vh_event(VH_EV_ADV_STALE);
+#endif
 
     decoder_free(&rb->ds);
     free(rb);
@@ -455,6 +458,9 @@ do_parse(void)
 
       Trace(("Parser discovered a bit pattern beyond EOF at {%u}",
              nbsx2(rb->base)));
+#ifdef KJN_LBZIP2_VERIF
+      vh_event(VH_EV_BEYOND_EOF);
+#endif
 
       decoder_free(&rb->ds);
       free(rb);
@@ -499,6 +505,9 @@ do_parse(void)
 
     Trace(("Parser discovered a mis-recognized bit pattern at {%u}",
            nbsx2(ublk->base)));
+#ifdef KJN_LBZIP2_VERIF
+    vh_event(VH_EV_PARSE_MISRECOG);
+#endif
     if (ublk->complete) {
       free(ublk);
     }
@@ -513,6 +522,9 @@ do_parse(void)
 
     Trace(("Parser took advantage of pattern found by scanner at {%u}",
            nbsx2(ublk->base)));
+#ifdef KJN_LBZIP2_VERIF
+    vh_event(VH_EV_PARSE_CONFIRM);
+#endif
     advance(ublk->end_pos);
 
     if (ublk->complete) {
@@ -537,6 +549,9 @@ do_parse(void)
     rb->base = parser_bs.pos;
     enqueue(retr_q, rb);
     Trace(("Parser found a unique block at {%u}", nbsx2(rb->base)));
+#ifdef KJN_LBZIP2_VERIF
+    vh_event(VH_EV_PARSE_UNIQUE);
+#endif
   }
 
   check_invariants();
@@ -565,6 +580,9 @@ do_retrieve(void)
   rb->curr_pos = detach(true_bitstream);
 
   if (parsing_done) {
+#ifdef KJN_LBZIP2_VERIF
+    vh_event(VH_EV_RETR_DONE_LATE);
+#endif
     decoder_free(&rb->ds);
     free(rb);
     work_units++;
@@ -578,6 +596,9 @@ do_retrieve(void)
        legitimate. Continuing would be pointless, so release resources and
        abort this retrieve job. */
     Trace(("Retriever found himself redundand"));
+#ifdef KJN_LBZIP2_VERIF
+    vh_event(VH_EV_RETR_REDUNDANT);
+#endif
     work_units++;
     decoder_free(&rb->ds);
     free(rb);
@@ -656,6 +677,10 @@ do_emit(void)
   struct out_blk *oblk;
   int rv;
 
+#ifdef KJN_LBZIP2_VERIF
+  if (out_slots <= EMIT_THRESH)
+    vh_event(VH_EV_EMIT_ESCAPE);
+#endif
   out_slots--;
   eb = dequeue(emit_q);
   check_invariants();
@@ -672,6 +697,9 @@ do_emit(void)
   oblk->base = eb->base;
 
   if (rv == MORE) {
+#ifdef KJN_LBZIP2_VERIF
+    vh_event(VH_EV_EMIT_MORE);
+#endif
     oblk->end_offset = 0;
     eb->base.minor++;
     sched_lock();
@@ -709,6 +737,9 @@ do_reorder(void)
 
   if (empty(order_q) || pos_lt(peek(reord_q)->base, dq_get(order_q, 0).base)) {
     Trace(("Rejected bogus block at {%u}", nbsx2(peek(reord_q)->base)));
+#ifdef KJN_LBZIP2_VERIF
+    vh_event(VH_EV_REORD_BOGUS);
+#endif
     free(dequeue(reord_q));
     out_slots++;
     check_invariants();
@@ -717,6 +748,9 @@ do_reorder(void)
 
   ord = shift(order_q);
   oblk = dequeue(reord_q);
+#ifdef KJN_LBZIP2_VERIF
+  vh_order(ord.base.major, ord.base.minor);
+#endif
 
   offs_incr = (reord_offs < oblk->end_offset ?
                oblk->end_offset - reord_offs : 0u);
@@ -756,6 +790,10 @@ do_scan(void)
   struct bitstream true_bitstream;
 
   assert(!parsing_done);
+#ifdef KJN_LBZIP2_VERIF
+  if (work_units <= SCAN_THRESH)
+    vh_event(VH_EV_SCAN_ESCAPE);
+#endif
   work_units--;
   bs = dequeue(scan_q);
 
@@ -780,6 +818,9 @@ do_scan(void)
   if (pos_le(bs->pos, parser_bs.pos)) {
     Trace(("Scanner found a known pattern at {%lu}",
            32ul + 32ul * bs->offset - bs->live));
+#ifdef KJN_LBZIP2_VERIF
+    vh_event(VH_EV_SCAN_KNOWN);
+#endif
     work_units++;
   }
   else {
@@ -788,6 +829,9 @@ do_scan(void)
 
     Trace(("Scanner found a unique match at {%lu}",
            32ul + 32ul * bs->offset - bs->live));
+#ifdef KJN_LBZIP2_VERIF
+    vh_event(VH_EV_SCAN_UNIQUE);
+#endif
 
     ub = XMALLOC(struct unord_blk);
     ub->base = bs->pos;
